@@ -35,7 +35,7 @@ fn view_point(rng: &mut Rng, near: f32, far: f32, half_w: f32) -> [f32; 3] {
 pub fn gen(rng: &mut Rng, tier: Tier, out: &mut Vec<String>) {
     let n = if tier == Tier::Quick { 1200 } else { 60_000 };
     for i in 0..n {
-        let door = ['r', 'b', 'r', 'r'][i % 4];
+        let door = ['r', 'b', 'B', 'r'][i % 4];
         let tgt = if i % 7 == 6 { "cb" } else { "fb" };
         let k = 1;
         let near = *rng.pick(&[0.1f32, 1.0, 0.5, 2.0, 10.0, 0.001, 0.01]);
